@@ -891,6 +891,9 @@ pub enum ForKind {
     /// `msm_by_bounded_scalars` where ONE assigned base is used in every term (the chip merges
     /// such terms by adding their scalars); term i has its own bit bound
     MsmRep(Vec<usize>),
+    /// msm over the bases [P, negate(P)] (the negation computed in-circuit shares cells with P);
+    /// `Some(b)`: msm_by_bounded_scalars with b-bit scalars, `None`: msm with full scalars
+    MsmPN(Option<usize>),
     /// `msm_by_le_bits` with n pairs, scalars given as `bits` little-endian bits
     MsmLeBits(usize, usize),
     /// `mul_by_constant`, constant in hex (reduced mod the scalar field)
@@ -915,6 +918,7 @@ impl ForKind {
             ForKind::Msm(n) => format!("msm({n})"),
             ForKind::MsmBounded(n, b) => format!("msm_by_bounded_scalars({n},bits={b})"),
             ForKind::MsmRep(bs) => format!("msm_by_bounded_scalars(one base x{},bits={bs:?})", bs.len()),
+            ForKind::MsmPN(b) => format!("msm([P,negate(P)],bits={b:?})"),
             ForKind::MsmLeBits(n, b) => format!("msm_by_le_bits({n},bits={b})"),
             ForKind::MulConst(c) => format!("mul_by_constant({c})"),
             ForKind::FromCoords => "point_from_coordinates".into(),
@@ -933,11 +937,12 @@ impl ForKind {
             ForKind::Select => (2, 1),
             ForKind::Msm(n) | ForKind::MsmBounded(n, _) | ForKind::MsmLeBits(n, _) => (*n, *n),
             ForKind::MsmRep(bs) => (1, bs.len()),
+            ForKind::MsmPN(_) => (1, 2),
             ForKind::FromCoords => (0, 2),
         }
     }
     pub fn is_msm(&self) -> bool {
-        matches!(self, ForKind::Msm(_) | ForKind::MsmBounded(..) | ForKind::MsmLeBits(..) | ForKind::MsmRep(_))
+        matches!(self, ForKind::Msm(_) | ForKind::MsmBounded(..) | ForKind::MsmLeBits(..) | ForKind::MsmRep(_) | ForKind::MsmPN(_))
     }
 }
 
@@ -1040,6 +1045,23 @@ fn for_eval_inner(curve: Curve, kind: &ForKind, x: &[BigUint]) -> Ev<FOut> {
             }
             FOut::Points(vec![acc])
         }
+        ForKind::MsmPN(b) => {
+            if !all_in_subgroup(&pts) {
+                return Ev::Vacuous;
+            }
+            for k in ks.iter() {
+                if *k >= c.n {
+                    return Ev::OutOfDomain;
+                }
+                if let Some(b) = b {
+                    if k.bits() > *b as u64 {
+                        return Ev::Vacuous;
+                    }
+                }
+            }
+            let acc = w.add(&w.mul(&pts[0], &ks[0]), &w.mul(&w.neg(&pts[0]), &ks[1]));
+            FOut::Points(vec![acc])
+        }
         ForKind::MsmRep(bs) => {
             if !all_in_subgroup(&pts) {
                 return Ev::Vacuous;
@@ -1109,7 +1131,7 @@ impl ForOp {
     fn scalar_width(&self) -> usize {
         let c = self.ctx();
         match &self.kind {
-            ForKind::Msm(_) | ForKind::MsmBounded(..) | ForKind::MsmRep(_) => c.ns,
+            ForKind::Msm(_) | ForKind::MsmBounded(..) | ForKind::MsmRep(_) | ForKind::MsmPN(_) => c.ns,
             ForKind::MsmLeBits(_, b) => n_chunks254(*b),
             ForKind::FromCoords => c.nl,
             _ => 1,
@@ -1125,7 +1147,7 @@ impl ForOp {
         }
         for k in &x[3 * np..] {
             match &self.kind {
-                ForKind::Msm(_) | ForKind::MsmBounded(..) | ForKind::MsmRep(_) => v.extend(c.enc_scalar(k)),
+                ForKind::Msm(_) | ForKind::MsmBounded(..) | ForKind::MsmRep(_) | ForKind::MsmPN(_) => v.extend(c.enc_scalar(k)),
                 ForKind::MsmLeBits(_, b) => v.extend(enc_bits254(k, *b)),
                 ForKind::FromCoords => v.extend(c.enc_coord(k)),
                 _ => v.push(big_to_f(k)),
@@ -1254,6 +1276,24 @@ macro_rules! foreign_circuit {
                     };
                     chip.constrain_as_public_input(l, &r)
                 }
+                ForKind::MsmPN(b) => {
+                    let mut ss: Vec<$AS> = vec![];
+                    for i in 0..2 {
+                        let s = assign_scalar(std, l, kv(i).map(|k| from_big::<$Scalar>(&k)))?;
+                        expose_scalar(std, l, &s)?;
+                        ss.push(s);
+                    }
+                    let np = chip.negate(l, &ps[0])?;
+                    let bases = vec![ps[0].clone(), np];
+                    let r = match b {
+                        Some(b) => {
+                            let bounded: Vec<($AS, usize)> = ss.into_iter().map(|s| (s, *b)).collect();
+                            chip.msm_by_bounded_scalars(l, &bounded, &bases)?
+                        }
+                        None => chip.msm(l, &ss, &bases)?,
+                    };
+                    chip.constrain_as_public_input(l, &r)
+                }
                 ForKind::MsmRep(bs) => {
                     let mut bounded: Vec<($AS, usize)> = vec![];
                     for (i, b) in bs.iter().enumerate() {
@@ -1376,7 +1416,7 @@ impl Op for ForOp {
         for i in 0..ns {
             let ch = &public[np * pw + i * w..np * pw + (i + 1) * w];
             let k = match &self.kind {
-                ForKind::Msm(_) | ForKind::MsmBounded(..) | ForKind::MsmRep(_) => c.dec_scalar(ch).ok()?,
+                ForKind::Msm(_) | ForKind::MsmBounded(..) | ForKind::MsmRep(_) | ForKind::MsmPN(_) => c.dec_scalar(ch).ok()?,
                 ForKind::MsmLeBits(_, b) => dec_bits254(ch, *b)?,
                 ForKind::FromCoords => c.dec_coord(ch).ok()?,
                 _ => f_to_big(&ch[0]),
@@ -2091,6 +2131,18 @@ pub fn build_for(curve: Curve, kind: &ForKind, pc: &[u8], kc: &[u8], seed: u64) 
             }
             nt |= *n >= 2;
         }
+        ForKind::MsmPN(b) => {
+            for i in 0..2 {
+                let cl = kc.get(i).copied().unwrap_or(0);
+                let k = match b {
+                    Some(b) => scalar_of(cl, &w.n, *b, false, &mut rng) % &w.n,
+                    None => scalar_of(cl, &w.n, 256, true, &mut rng),
+                };
+                x.push(k);
+                labels.push(kc_label(cl).to_string());
+            }
+            nt = true;
+        }
         ForKind::MsmRep(bs) => {
             for (i, b) in bs.iter().enumerate() {
                 let cl = kc.get(i).copied().unwrap_or(0);
@@ -2216,6 +2268,7 @@ pub fn visit_ops<V: OpVisitor>(v: &mut V, quick: bool, seed: u64) {
             fv(v, ForKind::Msm(2), &[(&[0, 0], &[0, 0]), (&[0, 3], &[4, 2]), (&[0, 4], &[0, 0]), (&[1, 0], &[1, 4])]);
             fv(v, ForKind::MsmBounded(2, 64), &[(&[0, 0], &[0, 0]), (&[0, 1], &[7, 1]), (&[0, 4], &[2, 2])]);
             fv(v, ForKind::MsmRep(vec![7, 7, 7]), &[(&[0], &[7, 7, 7]), (&[0], &[0, 1, 2]), (&[1], &[7, 0, 7])]);
+            fv(v, ForKind::MsmPN(Some(64)), &[(&[0], &[7, 0]), (&[0], &[0, 0]), (&[1], &[2, 3])]);
             fv(v, ForKind::MsmLeBits(1, 260), &[(&[0], &[0]), (&[0], &[1]), (&[0], &[5]), (&[0], &[7]), (&[2], &[6])]);
         }
     }
